@@ -113,7 +113,11 @@ def check_cfg(fx, rep, crate, cfg):
     handover_src = set()
     for b, i, s in run.iter_assigns():
         rv = s['rv']
-        if rv['k'] == 'aggr' and rv.get('variant') == 'Some' and rv.get('ops') and not s.get('mac'):
+        if rv['k'] == 'aggr' and rv.get('kind') == 'adt' and rv.get('variant') and rv.get('variant') not in ('Ok', 'Err', 'None', 'Ready', 'Pending') and len(rv.get('ops') or []) == 1 and not s.get('mac'):
+            # `stream = Some(s)` or an outcome enum of the loop `Outcome::Stream(s)`: the handler's stream wrapped for the code below
+            oty = ((op_place(rv['ops'][0]) or {}).get('ty') or '')
+            if rv['variant'] != 'Some' and (oty.startswith(('std::result', 'core::result', 'std::option', 'core::option', 'error::Error')) or not oty):
+                continue
             cs = slice_calls(run, rv['ops'][0])
             if any(c['callee'].get('def') == S.handle_call_fn or S.handle_call_fn and (c['callee'].get('resolved') or '').startswith(S.handle_call_fn)
                    for c in cs):
@@ -275,4 +279,6 @@ def check(fx, rep, tier):
     for cfg in ['full'] + (['ws'] if tier == 'thorough' else []):
         check_cfg(fx, rep, fx.crate('zlink_core', cfg), cfg)
         import_rules(fx, rep, tier, cfg)
+    import imports as _imp
+    _imp.layer(fx, rep, 'C10')
     return META
